@@ -30,11 +30,12 @@ type GridCase struct {
 	Remote    bool    `json:"remote,omitempty"`
 	ViaParse  bool    `json:"via_parse,omitempty"`
 	CopyNaN   bool    `json:"copy_nan,omitempty"`
+	Glob      bool    `json:"glob,omitempty"` // diff / copy over the pattern grp/it0/[ab].wsp
 	SchedSeed uint64  `json:"sched_seed"`
 }
 
 var gridKinds = []string{"view", "view-raw", "diff", "copy", "sum", "sum-copy", "sum-diff", "generate"}
-var gridEnvs = []string{"none", "textout-unopenable", "textout-devfull", "src-missing", "src-corrupt", "dst-parent-is-file", "dst-exists", "dst-missing"}
+var gridEnvs = []string{"none", "textout-unopenable", "textout-devfull", "src-missing", "src-corrupt", "dst-parent-is-file", "dst-exists", "dst-missing", "dst-method-7", "src-layout-mismatch"}
 var gridTextOuts = []string{"none", "stdout", "file"}
 
 func gridArchSels(n int) []string {
@@ -72,6 +73,7 @@ func gridWorld(r *rand.Rand, l Layout) []WFile {
 		{Base: "src", Rel: "grp/it0/a.wsp", Layout: l, Fills: genFills(r, l, 1, 0.7)},
 		{Base: "src", Rel: "grp/it0/b.wsp", Layout: l, Fills: genFills(r, l, 1, 0.7)},
 		{Base: "dst", Rel: "grp/it0/a.wsp", Layout: l, Fills: genFills(r, l, 1, 0.4)},
+		{Base: "dst", Rel: "grp/it0/b.wsp", Layout: l}, // made identical to the source's b.wsp at run time
 		{Base: "dst", Rel: "grp/it0/sum.wsp", Layout: l, Fills: genFills(r, l, 1, 0.4)},
 	}
 }
@@ -82,7 +84,7 @@ var (
 	enumWindows  = []string{"default", "past", "future", "beyond-finest", "degenerate", "from-after-until", "beyond-1", "beyond-2", "beyond-3"}
 )
 
-const gridEnumSize = 8 * 7 * 9 * 8 * 3 * 2 * 2
+const gridEnumSize = 8 * 7 * 9 * 10 * 3 * 2 * 2 * 2
 
 // genEnumerated decodes run index idx into (world number, cell): the thorough
 // tier walks the whole grid for one seeded world after the other.
@@ -97,10 +99,11 @@ func genEnumerated(idx int) *GridCase {
 	c.Kind = gridKinds[take(8)]
 	c.ArchSel = enumArchSels[take(7)]
 	c.Window = enumWindows[take(9)]
-	c.EnvFault = gridEnvs[take(8)]
+	c.EnvFault = gridEnvs[take(10)]
 	c.TextOut = gridTextOuts[take(3)]
 	c.Remote = take(2) == 1
 	c.ViaParse = take(2) == 1
+	c.Glob = take(2) == 1
 	c.CopyNaN = world%2 == 1
 	switch c.Kind {
 	case "view", "view-raw", "sum", "diff":
@@ -130,6 +133,7 @@ func (gridSim) Gen(prop, tier string, r *rand.Rand) interface{} {
 	c.TextOut = gridTextOuts[r.IntN(len(gridTextOuts))]
 	c.ViaParse = chance(r, 0.4)
 	c.CopyNaN = chance(r, 0.5)
+	c.Glob = chance(r, 0.3)
 	switch c.Kind {
 	case "view", "view-raw", "sum", "diff":
 		c.Remote = chance(r, 0.25)
@@ -220,6 +224,9 @@ func (gridSim) Run(e *Env, ci interface{}) {
 			return
 		}
 	}
+	if b := readFile(filepath.Join(e.Dir, "src", "grp/it0/b.wsp")); b != nil {
+		os.WriteFile(filepath.Join(e.Dir, "dst", "grp/it0/b.wsp"), b, 0o644)
+	}
 	cm := Cmd{Kind: c.Kind, Archive: c.archive(), ViaParse: c.ViaParse, CopyNaN: c.CopyNaN, Create: c.Layout, SrcRemote: c.Remote, Fill: true, RandMax: 10}
 	c.applyWindow(&cm)
 	switch c.Kind {
@@ -227,6 +234,9 @@ func (gridSim) Run(e *Env, ci interface{}) {
 		cm.Src = "grp/it0/a.wsp"
 	case "diff", "copy":
 		cm.Src = "grp/it0/a.wsp"
+		if c.Glob {
+			cm.Src = "grp/it0/[ab].wsp"
+		}
 	case "sum":
 		cm.Item, cm.Src = "grp/it*", "*.wsp"
 	case "sum-copy", "sum-diff":
@@ -255,7 +265,8 @@ func (gridSim) Run(e *Env, ci interface{}) {
 	case "textout-devfull":
 		cm.TextOut = "devfull"
 	case "src-missing":
-		if c.Kind == "generate" {
+		if c.Kind == "generate" || (c.Glob && (c.Kind == "diff" || c.Kind == "copy")) {
+			// with a pattern the missing file is simply not matched
 			fault = "none"
 		} else {
 			os.Remove(srcA)
@@ -290,6 +301,33 @@ func (gridSim) Run(e *Env, ci interface{}) {
 			fault = "none"
 		} else {
 			os.Remove(dstPath)
+		}
+	case "dst-method-7":
+		// the destination's header carries aggregation method 7 ("mix", not storable)
+		if c.Kind != "diff" && c.Kind != "sum-diff" && c.Kind != "copy" && c.Kind != "sum-copy" {
+			fault = "none"
+		} else if f, err := os.OpenFile(dstPath, os.O_WRONLY, 0); err == nil {
+			f.WriteAt([]byte{0, 0, 0, 7}, 0)
+			f.Close()
+		} else {
+			fault = "none"
+		}
+	case "src-layout-mismatch":
+		// the last source file of the item has one point more in its last archive
+		if c.Kind != "sum" && c.Kind != "sum-copy" && c.Kind != "sum-diff" {
+			fault = "none"
+		} else {
+			l2 := Layout{Archs: append([]Arch(nil), c.Layout.Archs...), Method: c.Layout.Method, Xff: c.Layout.Xff}
+			if c.SchedSeed%2 == 0 || l2.Archs[len(l2.Archs)-1].N < 3 || (len(l2.Archs) > 1 && (l2.Archs[len(l2.Archs)-1].N-1)*l2.Archs[len(l2.Archs)-1].S <= l2.Archs[len(l2.Archs)-2].R()) {
+				l2.Archs[len(l2.Archs)-1].N++
+			} else {
+				l2.Archs[len(l2.Archs)-1].N--
+			}
+			p := filepath.Join(e.Dir, "src", "grp/it0/b.wsp")
+			os.Remove(p)
+			if !l2.Valid() || buildFile(e, WFile{Base: "src", Rel: "grp/it0/b.wsp", Layout: l2}) != nil {
+				fault = "none"
+			}
 		}
 	}
 	if fault != "none" {
@@ -400,7 +438,7 @@ func (gridSim) Run(e *Env, ci interface{}) {
 			return
 		}
 	case "sum":
-		if fault == "src-missing" || fault == "src-corrupt" {
+		if fault == "src-missing" || fault == "src-corrupt" || fault == "src-layout-mismatch" {
 			silent("its source was %s", fault)
 			return
 		}
@@ -409,7 +447,7 @@ func (gridSim) Run(e *Env, ci interface{}) {
 			return
 		}
 	case "diff", "sum-diff":
-		if fault == "src-missing" || fault == "src-corrupt" || fault == "dst-missing" {
+		if fault == "src-missing" || fault == "src-corrupt" || fault == "dst-missing" || fault == "dst-method-7" || fault == "src-layout-mismatch" {
 			silent("an input was %s, so both inputs cannot have been compared", fault)
 			return
 		}
@@ -426,7 +464,7 @@ func (gridSim) Run(e *Env, ci interface{}) {
 			return
 		}
 	case "copy", "sum-copy":
-		if fault == "src-missing" || fault == "src-corrupt" || fault == "dst-parent-is-file" {
+		if fault == "src-missing" || fault == "src-corrupt" || fault == "dst-parent-is-file" || fault == "dst-method-7" || fault == "src-layout-mismatch" {
 			silent("its environment was %s", fault)
 			return
 		}
